@@ -266,12 +266,35 @@ def many_inputs(n, kind=0):
     return res
 
 
+def deep_nesting(depth, fault):
+    """A balanced argument list nested `depth` levels deep, followed by a fault: the run must still fail loudly."""
+    res = Result(nontrivial=True)
+    text = "function(ok_before)\nendfunction()\nmessage(" + "(" * depth + "x" + ")" * depth + ")\n" + fault
+    with S.Sandbox("c06d") as sb:
+        bad = sb.path("in", "faulty.cmake")
+        os.makedirs(os.path.dirname(bad))
+        with open(bad, "w") as f:
+            f.write(text)
+        r = S.run_main([bad, "-o", sb.path("out")], cwd=sb.path("cwd"))
+        failed = r.exc is not None or r.code != 0
+        if not failed:
+            res.fail("accepted-faulty-input:after-deep-nesting", f"{depth} nested groups then {fault!r}: exit 0")
+        if os.path.exists(sb.path("out", "faulty.rst")):
+            res.fail("page-written-for-faulty-file:after-deep-nesting", f"{depth} nested groups then {fault!r}: faulty.rst exists")
+    res.labels.append("fault-after-deeply-nested-arguments")
+    return res
+
+
 def extra(ctx):
+    for depth, fault in ((200, "stray words\n"), (1500, "set(x 1))\n"), (1500, "set(y \\q)\n"), (3000, "function(f\n")):
+        ctx.record({"deep_nesting": depth, "fault": fault}, deep_nesting(depth, fault))
     for n, kind in ((1, 0), (2, 1), (255, 2), (256, 2), (256, 0), (257, 3), (512, 2), (256, 4)):
         ctx.record({"many_inputs": n, "kind": kind}, many_inputs(n, kind))
 
 
 def evaluate(case):
+    if "deep_nesting" in case:
+        return deep_nesting(case["deep_nesting"], case["fault"])
     if "many_inputs" in case:
         return many_inputs(case["many_inputs"], case.get("kind", 0))
     res = Result()
